@@ -76,6 +76,11 @@ func c10DocShapes() map[string][2]string {
 		"unquoted": {`{a:1}`, "invalid"},
 		"lonebrace": {`}`, "invalid"},
 		"emptyline": {``, "empty"},
+		// insignificant JSON whitespace around the object belongs to the line: stored verbatim
+		"padlead":  {"  " + `{"a":"Ab","n":2}`, "object"},
+		"padtrail": {`{"a":"Ab","n":3}` + " \t", "object"},
+		// a Unicode space that is NOT JSON whitespace after the object: the line is not valid JSON
+		"nbsptail": {`{"a":"Ab","n":4}` + "\u00a0", "invalid"},
 	}
 	for _, n := range []int{61, 62, 63, 64, 65, 66, 67, 127, 128, 129} {
 		m[fmt.Sprintf("len%d", n)] = [2]string{objOfLen(n, fmt.Sprint(n)), "object"}
@@ -532,7 +537,7 @@ func TestVerifC10(t *testing.T) {
 	}
 	// ---- (A) bodies ----
 	maxItems := 3
-	docNames := []string{"obj", "obj2", "objnest", "empty{}", "array", "string", "null", "trunc", "unquoted", "lonebrace", "emptyline", "len62", "len63", "len64", "len65", "len66", "len127", "len128", "len129"}
+	docNames := []string{"obj", "obj2", "objnest", "empty{}", "array", "string", "null", "trunc", "unquoted", "lonebrace", "emptyline", "padlead", "padtrail", "nbsptail", "len62", "len63", "len64", "len65", "len66", "len127", "len128", "len129"}
 	if r.Thorough() {
 		maxItems = 4
 		docNames = append(docNames, "number", "len61", "len67")
@@ -628,7 +633,7 @@ func TestVerifC10(t *testing.T) {
 	recT(nil)
 	ev := r.Get("evaluations")
 	r.Finish(t, "model_checking",
-		fmt.Sprintf("bodies: every sequence of <=%d (action, document) items over %d document shapes (objects incl. nested/escaped/empty, non-objects, three invalid-JSON shapes, empty line, object lines of 62..66 and 127..129 bytes around and at twice the %d-byte document/buffer limit) x {LF,CRLF} x {final newline, none}, gzip on every third; plus bad action lines at positions 0..6, an over-long action line and blank lines before actions; through proxyapi.BulkHandler (httptest) over a real bulk.Ingestor with a capturing storage client. Expected outcome from a reference reading of the items: reject (non-2xx, no store call) or the exact ordered list of stored byte strings, one store call, that many response items, distinct IDs timed inside the receive window; a document exactly as long as the limit may be read either way (stored or skipped), but the whole outcome must be the one of one of the two readings. time rule: 4 field names x 5 formats x 11 offsets around both drift borders plus documents 293..7000 years in the past / future, through Ingestor.ProcessDocuments with a fixed request time; every sequence of <=%d documents over 11 time-field shapes (one or two of timestamp/time/ts, unparsable first field, first field out of drift, none) through one request and through one request per document (pooled processors): each document's ID time depends on that document only", maxItems, len(docNames), c10MaxDoc, seqLen),
+		fmt.Sprintf("bodies: every sequence of <=%d (action, document) items over %d document shapes (objects incl. nested/escaped/empty, non-objects, three invalid-JSON shapes, empty line, objects padded with JSON whitespace (stored with the padding), an object followed by a no-break space (invalid), object lines of 62..66 and 127..129 bytes around and at twice the %d-byte document/buffer limit) x {LF,CRLF} x {final newline, none}, gzip on every third; plus bad action lines at positions 0..6, an over-long action line and blank lines before actions; through proxyapi.BulkHandler (httptest) over a real bulk.Ingestor with a capturing storage client. Expected outcome from a reference reading of the items: reject (non-2xx, no store call) or the exact ordered list of stored byte strings, one store call, that many response items, distinct IDs timed inside the receive window; a document exactly as long as the limit may be read either way (stored or skipped), but the whole outcome must be the one of one of the two readings. time rule: 4 field names x 5 formats x 11 offsets around both drift borders plus documents 293..7000 years in the past / future, through Ingestor.ProcessDocuments with a fixed request time; every sequence of <=%d documents over 11 time-field shapes (one or two of timestamp/time/ts, unparsable first field, first field out of drift, none) through one request and through one request per document (pooled processors): each document's ID time depends on that document only", maxItems, len(docNames), c10MaxDoc, seqLen),
 		map[string]any{
 			"states":                        len(bodies),
 			"transitions":                   ev,
